@@ -30,6 +30,12 @@ def loop_vars(enc):
     return read, cnt, gsize
 
 
+def strip_casts_(t):
+    while t[0] == "cast":
+        t = t[1]
+    return t
+
+
 def check_header(rep, R, enc, expect_prefix, where):
     hb = enc.header_bytes()
     want = list(expect_prefix) + [("n", 0), ("n", 8), ("n", 16)]
@@ -67,6 +73,11 @@ def token_checks(rep, R2, R4, enc, forms, where, flag_shift=7):
     Returns the set of literal thresholds seen."""
     read, cnt, gsize = loop_vars(enc)
     thresholds = set()
+    if read is None or cnt is None or gsize is None:
+        rep.inconc(R2, "%s: read position / token counter / group size of the main loop not recognised (%s, %s, %s)" % (
+            enc.body.name.rsplit("::", 2)[-2], fmt(read)[:20] if read else None, fmt(cnt)[:20] if cnt else None, gsize))
+        return thresholds
+    unknown_emission = None
     seen_forms = {}
     lit_ok = None
     adv = {"lit": set(), "ref": set(), "cnt": set()}
@@ -80,7 +91,11 @@ def token_checks(rep, R2, R4, enc, forms, where, flag_shift=7):
         if is_lit is None:
             continue
         slots = enc.emissions(p)
+        if any(s[0][0] == "unknown" for s in slots) or getattr(enc, "emission_unknown", None):
+            unknown_emission = getattr(enc, "emission_unknown", None) or "a byte is stored at an index that is not recognised"
         data = [s for s in slots if not (len(s) > 2 and s[2] == "merge-into-existing")]
+        if not is_lit and not data:
+            unknown_emission = unknown_emission or "the bytes of a reference token were not found"
         flags = [s for s in slots if len(s) > 2 and s[2] == "merge-into-existing"]
         env = p.env or {}
         nread = env.get(read[1]) if read else None
@@ -107,6 +122,8 @@ def token_checks(rep, R2, R4, enc, forms, where, flag_shift=7):
                 while x[0] == "cast":
                     x = x[1]
                 good = False
+                if x[0] == "bin" and x[1] == "Shr" and x[2][0] == "const" and x[2][1] == (1 << flag_shift) and (strip_casts_(x[3]) == cnt or strip_casts_(x[3])[:2] == ("const", 0)):
+                    good = True      # 0x80 >> k  ==  1 << (7 - k)
                 if x[0] == "bin" and x[1] == "Shl" and x[2][0] == "const" and x[2][1] == 1:
                     sh = x[3]
                     if sh[0] == "field":
@@ -132,6 +149,9 @@ def token_checks(rep, R2, R4, enc, forms, where, flag_shift=7):
                 rep.inconc(R2, "token bytes: %s" % e)
                 continue
             seen_forms[key] = got
+    if unknown_emission:
+        rep.inconc(R2, "%s: token emission not recognised: %s" % (enc.body.name.rsplit("::", 2)[-2], unknown_emission))
+        return thresholds
     for name, pred, spec in forms:
         hits = [(k, v) for k, v in seen_forms.items() if k != "flag" and pred(k)]
         if not hits:
@@ -301,5 +321,7 @@ def run(facts, rep, ctx):
             c10.search_contract(facts, rep, R5, sb)
         if thr and all(t >= 3 for t in thr):
             rep.ok(R3, {"threshold": sorted(thr)})
+        elif not thr:
+            rep.inconc(R3, "literal / reference threshold not recognised")
         else:
             rep.violation(R3, b.name, "threshold", "references are emitted for lengths below the bias 3 (threshold %s): length-3 would underflow" % sorted(thr), where)
